@@ -139,7 +139,8 @@ def run_spellings(shard):
     k, nsh, tier = shard
     acc = Acc()
     fam = [c[0] for c in CENTRES] + ALKENES + inputs.ring_stereo_family() + ['C[C@H](O)[C@@H](N)C(=O)O', 'C[C@H]1CC[C@H](CC1)C(C)C', 'O[C@H]1[C@H](O)[C@@H](O)[C@H]1O', 'C[C@H](/C=C/C)O',
-                                                                             'C[C@H](O)/C=C\\[C@@H](C)N', 'C1C[C@H]2CC[C@@H]1C2', 'C[C@@H]1CC[C@@]2(C1)CCCO2'] + AXIAL
+                                                                             'C[C@H](O)/C=C\\[C@@H](C)N', 'C1C[C@H]2CC[C@@H]1C2', 'C[C@@H]1CC[C@@]2(C1)CCCO2'] + AXIAL + inputs.interdependent_family()
+    tri = inputs.interdependent_trisubstituted()
     if tier == 'thorough':
         fam += M.corpus(stride=8)
     else:
@@ -160,6 +161,8 @@ def run_spellings(shard):
         except Exception:
             acc.ood['chython rejects'] += 1
             continue
+        if s in tri and n_labels(m) != tri[s]:
+            acc.fail('centre between two equal tri-substituted double bonds: label kept although the arms agree, or dropped although they differ :: %s' % s, mol=s, got=n_labels(m), expected=tri[s])
         if s in AXIAL and n_labels(m) != 2:
             # hand-asserted: both marks of these texts sit on elements that are stereogenic (through a ring axis / a spiro junction)
             acc.fail('a mark on a stereogenic element is dropped when the text is read (ring-axis / spiro family) :: %s' % s, mol=s, got=n_labels(m), expected=2)
@@ -672,7 +675,7 @@ def replay(rec):
                 a.merge(run_wedges((k, 32, 'thorough')))
         finally:
             M.corpus = orig
-    elif 'spelling' in key or 'dropped when the text is read' in key:
+    elif 'spelling' in key or 'dropped when the text is read' in key or 'tri-substituted double bonds' in key:
         orig = M.corpus
         M.corpus = lambda **kw: [rec['mol']]
         a = Acc()
